@@ -41,6 +41,50 @@ validations:
               ex.r:
                 pattern: "^a"
 `,
+	// two and three quantified constraints on ONE property, several lists with several values
+	`profile: P4
+prefixes:
+  ex: http://example.org/
+violation:
+  - v1
+validations:
+  v1:
+    targetClass: ex.C
+    propertyConstraints:
+      ex.a:
+        atLeast:
+          count: 1
+          validation:
+            propertyConstraints:
+              ex.p:
+                in: [a, b, c]
+        atMost:
+          count: 2
+          validation:
+            propertyConstraints:
+              ex.p:
+                containsSome: [x, y]
+      ex.b:
+        exactly:
+          count: 1
+          validation:
+            propertyConstraints:
+              ex.q:
+                minCount: 1
+        atMost:
+          count: 3
+          validation:
+            propertyConstraints:
+              ex.q:
+                maxCount: 1
+        nested:
+          propertyConstraints:
+            ex.r:
+              containsAll: [u, v]
+            ex.s:
+              lessThanProperty: ex.t
+              equalsToProperty: ex.u
+`,
 	// several facets on one property, two properties, under or/and/not
 	`profile: P2
 violation:
